@@ -518,7 +518,7 @@ deriving DecidableEq, Repr
 def Rem.op (r : Rem) (takeOk : Bool) : RemOp → Rem × List Call
   | .start =>
     if r.started then (r, [])
-    else if takeOk then ({ r with started := true }, [Call.takeMsg r.ip r.dom])
+    else if takeOk then ({ r with started := true, conns := [] }, [Call.takeMsg r.ip r.dom])
     else (r, [Call.takeMsg r.ip r.dom])
   | .addRcpt d connOk mailOk =>
     if !r.started then (r, [])
@@ -526,10 +526,43 @@ def Rem.op (r : Rem) (takeOk : Bool) : RemOp → Rem × List Call
     else if !connOk then (r, [])                       -- MX lookup / connect / TLS / policy failed
     else if !takeOk then (r, [Call.takeDest d])
     else if !mailOk then (r, [Call.takeDest d, Call.relDest d])
-    else ({ r with conns := r.conns ++ [d] }, [Call.takeDest d])
+    else ({ r with conns := d :: r.conns }, [Call.takeDest d])
   | .close =>
     if !r.started then (r, [])
     else ({ r with started := false, conns := [] },
       r.conns.map Call.relDest ++ [Call.relMsg r.ip r.dom])
+
+/-! ## Outstanding takes of a sequence of Group calls (specification side of "releases what it took") -/
+
+structure Out where
+  msg : List (Nat × Nat) := []
+  dest : List Nat := []
+deriving DecidableEq, Repr
+
+/-- Follows the calls of one lifecycle command (`ok` = result of the take it contains, if any).
+`none`: a release of something that is not outstanding. -/
+def track (ok : Bool) (o : Out) : List Call → Option Out
+  | [] => some o
+  | .takeMsg a b :: r => track ok (if ok then { o with msg := (a, b) :: o.msg } else o) r
+  | .takeDest d :: r => track ok (if ok then { o with dest := d :: o.dest } else o) r
+  | .relMsg a b :: r =>
+    if o.msg.contains (a, b) then track ok { o with msg := o.msg.erase (a, b) } r else none
+  | .relDest d :: r =>
+    if o.dest.contains d then track ok { o with dest := o.dest.erase d } r else none
+
+/-- A session script: commands with the result of the `TakeMsg` each may make. -/
+def Sess.run (s : Sess) (o : Out) : List (SessOp × Bool) → Option (Sess × Out)
+  | [] => some (s, o)
+  | (op, ok) :: rest =>
+    match track ok o (s.op ok op).2 with
+    | none => none
+    | some o' => Sess.run (s.op ok op).1 o' rest
+
+def Rem.run (r : Rem) (o : Out) : List (RemOp × Bool) → Option (Rem × Out)
+  | [] => some (r, o)
+  | (op, ok) :: rest =>
+    match track ok o (r.op ok op).2 with
+    | none => none
+    | some o' => Rem.run (r.op ok op).1 o' rest
 
 end MaddyVerif.Limits
